@@ -27,6 +27,11 @@ def reach_rule(rep, prog, name, prim, include_start):
     calls = [c for c in S.select("call", qname=q) if c.callkind == "repo"]
     targets = {c.target for c in calls}
     others = (targets & RELS) - {U + prim}
+    if not (targets & RELS) and q not in targets:
+        # not a search built on pa / ch calls at all (a walk over the matrix itself, a helper with its own frontier): another algorithm for the same
+        # relation, which these rules - written for "direct relatives, then theirs" - do not read
+        rep.unk("REACH.shape", fwhere(f), "%s does not call any of the relation helpers (pa / ch / ...): how it finds the nodes is not read" % name)
+        return
     rep.check("REACH.primitive", U + prim in targets and not others, fwhere(f),
               "%s is built from %s only" % (name, prim),
               "%s must be built from %s only, but calls %s" % (name, prim, sorted(t.split('.')[-1] for t in targets & RELS)))
@@ -245,6 +250,10 @@ def separates_rules(rep, prog):
     rep.check("SEP.guard", ok, fwhere(f), "ValueError iff A∩B, A∩S or B∩S is non-empty, before any search",
               "the disjointness guard is not `A&B or A&S or B&S non-empty`")
     calls = [c for c in S.select("call", qname=q) if c.target == U + "semi_directed_paths"]
+    if not calls:
+        # no enumeration of paths at all: the question "does some path avoid S" is answered by another search
+        rep.unk("SEP.paths", fwhere(f), "separates does not enumerate semi_directed_paths(a, b, G): how it looks for a path that avoids S is not read")
+        return
     ok = bool(calls) and all(c.args == [("elem", ("param", "A")), ("elem", ("param", "B")), ("param", "G")] for c in calls)
     # ... for *every* pair: two nested loops over A and B, or one over itertools.product(A, B) - not zip(A, B), which pairs them off
     for c in calls:
@@ -360,6 +369,9 @@ def chain_component_rules(rep, prog):
     calls = [c for c in S.select("call", qname=q) if c.callkind == "repo"]
     rel = [c for c in calls if c.target in RELS]
     und = ("call", U + "only_undirected", (("param", "G"),), (("P", ("param", "G")),))
+    if not rel:
+        rep.unk("CC.shape", fwhere(f), "chain_component does not call any of the relation helpers (neighbors / ...): how it finds the component is not read")
+        return
     ok = bool(rel) and all(c.target == U + "neighbors" for c in rel)
     rep.check("CC.relation", ok, fwhere(f), "connectivity follows `neighbors` only", "chain_component follows %s" % sorted({c.target for c in rel}))
     on_und = all(len(c.args) > 1 and (c.args[1] == und or c.args[1] == ("param", "G")) for c in rel)
